@@ -3371,6 +3371,18 @@ class HasTraits(CHasTraits, metaclass=MetaHasTraits):
         self.on_trait_change(notify, name_pattern, target=self)
         self.__dict__.setdefault(ListenerTraits, {})[name] = notify
 
+    def _trait_delegate_pattern(self, name):
+        """ Returns the (unexpanded) listener pattern for a delegate trait:
+            the one recorded by the metaclass for a class-level delegate, or
+            the one '_trait_added_changed' used for a delegate added with
+            'add_trait'.
+        """
+        info = self.__class__.__listener_traits__.get(name)
+        if info is not None:
+            return info[1]
+
+        return get_delegate_pattern(name, self.trait(name))
+
     def _remove_trait_delegate_listener(self, name, remove):
         """ Removes a delegate listener when the local delegate value is set.
         """
@@ -3384,7 +3396,7 @@ class HasTraits(CHasTraits, metaclass=MetaHasTraits):
                 self.on_trait_change(
                     dict[name],
                     self._trait_delegate_name(
-                        name, self.__class__.__listener_traits__[name][1]
+                        name, self._trait_delegate_pattern(name)
                     ),
                     remove=True,
                 )
@@ -3398,7 +3410,7 @@ class HasTraits(CHasTraits, metaclass=MetaHasTraits):
         # the delegate listener (unless it's already there):
         if name not in dict:
             self._init_trait_delegate_listener(
-                name, 0, self.__class__.__listener_traits__[name][1]
+                name, 0, self._trait_delegate_pattern(name)
             )
 
     def _init_trait_observers(self):
